@@ -358,38 +358,38 @@ pub fn avp_to_crate(a: &SAvp) -> Option<AVP> {
             }),
             (3, SVal::Bits(w)) => AVP::FramingCapabilities(bits_from_word(*w, |r| FramingCapabilities::try_read(r))?),
             (4, SVal::Bits(w)) => AVP::BearerCapabilities(bits_from_word(*w, |r| BearerCapabilities::try_read(r))?),
-            (5, SVal::U64(v)) => AVP::TieBreaker(TieBreaker { value: *v }),
-            (6, SVal::U16(v)) => AVP::FirmwareRevision(FirmwareRevision { value: *v }),
-            (7, SVal::Bytes(v)) => AVP::HostName(HostName { value: v.clone() }),
-            (8, SVal::Str(v)) => AVP::VendorName(VendorName { value: v.clone() }),
-            (9, SVal::U16(v)) => AVP::AssignedTunnelId(AssignedTunnelId { value: *v }),
-            (10, SVal::U16(v)) => AVP::ReceiveWindowSize(ReceiveWindowSize { value: *v }),
-            (11, SVal::Bytes(v)) => AVP::Challenge(Challenge { value: v.clone() }),
+            (5, SVal::U64(v)) => AVP::TieBreaker(TieBreaker::from(*v)),
+            (6, SVal::U16(v)) => AVP::FirmwareRevision(FirmwareRevision::from(*v)),
+            (7, SVal::Bytes(v)) => AVP::HostName(HostName::from(v.clone())),
+            (8, SVal::Str(v)) => AVP::VendorName(VendorName::from(v.clone())),
+            (9, SVal::U16(v)) => AVP::AssignedTunnelId(AssignedTunnelId::from(*v)),
+            (10, SVal::U16(v)) => AVP::ReceiveWindowSize(ReceiveWindowSize::from(*v)),
+            (11, SVal::Bytes(v)) => AVP::Challenge(Challenge::from(v.clone())),
             (12, SVal::Q931 { code, msg, adv }) => AVP::Q931CauseCode(Q931CauseCode {
                 cause_code: *code,
                 cause_msg: *msg,
                 advisory: adv.clone(),
             }),
-            (13, SVal::Fix16(v)) => AVP::ChallengeResponse(ChallengeResponse { value: *v }),
-            (14, SVal::U16(v)) => AVP::AssignedSessionId(AssignedSessionId { value: *v }),
-            (15, SVal::U32(v)) => AVP::CallSerialNumber(CallSerialNumber { value: *v }),
-            (16, SVal::U32(v)) => AVP::MinimumBps(MinimumBps { value: *v }),
-            (17, SVal::U32(v)) => AVP::MaximumBps(MaximumBps { value: *v }),
+            (13, SVal::Fix16(v)) => AVP::ChallengeResponse(ChallengeResponse::from(*v)),
+            (14, SVal::U16(v)) => AVP::AssignedSessionId(AssignedSessionId::from(*v)),
+            (15, SVal::U32(v)) => AVP::CallSerialNumber(CallSerialNumber::from(*v)),
+            (16, SVal::U32(v)) => AVP::MinimumBps(MinimumBps::from(*v)),
+            (17, SVal::U32(v)) => AVP::MaximumBps(MaximumBps::from(*v)),
             (18, SVal::Bits(w)) => AVP::BearerType(bits_from_word(*w, |r| BearerType::try_read(r))?),
             (19, SVal::Bits(w)) => AVP::FramingType(bits_from_word(*w, |r| FramingType::try_read(r))?),
-            (21, SVal::Str(v)) => AVP::CalledNumber(CalledNumber { value: v.clone() }),
-            (22, SVal::Str(v)) => AVP::CallingNumber(CallingNumber { value: v.clone() }),
-            (23, SVal::Str(v)) => AVP::SubAddress(SubAddress { value: v.clone() }),
-            (24, SVal::U32(v)) => AVP::TxConnectSpeed(TxConnectSpeed { value: *v }),
-            (25, SVal::Fix4(v)) => AVP::PhysicalChannelId(PhysicalChannelId { value: *v }),
-            (26, SVal::Bytes(v)) => AVP::InitialReceivedLcpConfReq(InitialReceivedLcpConfReq { value: v.clone() }),
-            (27, SVal::Bytes(v)) => AVP::LastSentLcpConfReq(LastSentLcpConfReq { value: v.clone() }),
-            (28, SVal::Bytes(v)) => AVP::LastReceivedLcpConfReq(LastReceivedLcpConfReq { value: v.clone() }),
+            (21, SVal::Str(v)) => AVP::CalledNumber(CalledNumber::from(v.clone())),
+            (22, SVal::Str(v)) => AVP::CallingNumber(CallingNumber::from(v.clone())),
+            (23, SVal::Str(v)) => AVP::SubAddress(SubAddress::from(v.clone())),
+            (24, SVal::U32(v)) => AVP::TxConnectSpeed(TxConnectSpeed::from(*v)),
+            (25, SVal::Fix4(v)) => AVP::PhysicalChannelId(PhysicalChannelId::from(*v)),
+            (26, SVal::Bytes(v)) => AVP::InitialReceivedLcpConfReq(InitialReceivedLcpConfReq::from(v.clone())),
+            (27, SVal::Bytes(v)) => AVP::LastSentLcpConfReq(LastSentLcpConfReq::from(v.clone())),
+            (28, SVal::Bytes(v)) => AVP::LastReceivedLcpConfReq(LastReceivedLcpConfReq::from(v.clone())),
             (29, SVal::PAType(c)) => AVP::ProxyAuthenType(proxy_authen_type_from_code(*c)?),
-            (30, SVal::Bytes(v)) => AVP::ProxyAuthenName(ProxyAuthenName { value: v.clone() }),
-            (31, SVal::Bytes(v)) => AVP::ProxyAuthenChallenge(ProxyAuthenChallenge { value: v.clone() }),
-            (32, SVal::PAId(v)) => AVP::ProxyAuthenId(ProxyAuthenId { value: *v }),
-            (33, SVal::Bytes(v)) => AVP::ProxyAuthenResponse(ProxyAuthenResponse { value: v.clone() }),
+            (30, SVal::Bytes(v)) => AVP::ProxyAuthenName(ProxyAuthenName::from(v.clone())),
+            (31, SVal::Bytes(v)) => AVP::ProxyAuthenChallenge(ProxyAuthenChallenge::from(v.clone())),
+            (32, SVal::PAId(v)) => AVP::ProxyAuthenId(ProxyAuthenId::from(*v)),
+            (33, SVal::Bytes(v)) => AVP::ProxyAuthenResponse(ProxyAuthenResponse::from(v.clone())),
             (34, SVal::CallErrors(a)) => AVP::CallErrors(CallErrors {
                 crc_errors: a[0],
                 framing_errors: a[1],
@@ -402,10 +402,10 @@ pub fn avp_to_crate(a: &SAvp) -> Option<AVP> {
                 send_accm: *s,
                 receive_accm: *r,
             }),
-            (36, SVal::Fix4(v)) => AVP::RandomVector(RandomVector { value: *v }),
-            (37, SVal::Bytes(v)) => AVP::PrivateGroupId(PrivateGroupId { value: v.clone() }),
-            (38, SVal::U32(v)) => AVP::RxConnectSpeed(RxConnectSpeed { value: *v }),
-            (39, SVal::Empty) => AVP::SequencingRequired(SequencingRequired {}),
+            (36, SVal::Fix4(v)) => AVP::RandomVector(RandomVector::from(*v)),
+            (37, SVal::Bytes(v)) => AVP::PrivateGroupId(PrivateGroupId::from(v.clone())),
+            (38, SVal::U32(v)) => AVP::RxConnectSpeed(RxConnectSpeed::from(*v)),
+            (39, SVal::Empty) => AVP::SequencingRequired(SequencingRequired::default()),
             _ => return None,
         },
     })
